@@ -2,6 +2,7 @@ import Ctap.Decode
 import Ctap.Request
 import Ctap.Frame
 import Ctap.AuthData
+import Ctap.Ctap1
 import Props.GenTables
 import Spec
 /-
@@ -106,6 +107,9 @@ structure Source where
   adExtRoles : Cfg → List (String × Ty)
   reqTables : Cfg → ReqTables
   respCase : Cfg → String → Val → Nat → List Byte → String
+  u2fParse : Nat → Nat → Nat → List Byte → Outcome (Except U2fErr U2fReq)
+  u2fsCase : Nat → List Byte → U2fResp → String
+  regnewCase : List Byte → List Byte → String
   adatCase : Cfg → String → List Byte → Nat → Nat → Option (Option Acd) → Option Val → String
   tables : String → Option (List (String × Nat))
   controlByte : Nat → Option Nat      -- byte → variant index
@@ -195,9 +199,29 @@ def specAdatCase (c : Cfg) (flavour : String) (rp : List Byte) (mask count : Nat
     | some b => "ok " ++ toHex b
     | none => s!"err {Spec.statusOther}"
 
+def hexOrDash (b : List Byte) : String := if b.isEmpty then "-" else toHex b
+
+def genU2fsCase (cap : Nat) (prior : List Byte) (r : U2fResp) : String :=
+  let (buf, ok) := u2fSerialize cap r prior
+  (if ok then "ok " else "err ") ++ hexOrDash buf
+
+/-- oracle: all-or-nothing append of the specified layout; on failure only the prefix property is
+    specified, so the oracle reports the implementation-independent part: failure -/
+def specU2fsCase (cap : Nat) (prior : List Byte) (r : U2fResp) : String :=
+  let bytes := Spec.u2fResponseBytes r
+  if prior.length + bytes.length ≤ cap then "ok " ++ hexOrDash (prior ++ bytes) else "err"
+
+def genRegnewCase (x y : List Byte) : String :=
+  match registerPublicKey x y with
+  | .ret b => "ok " ++ toHex b
+  | _ => "panic"
+
+def specRegnewCase (x y : List Byte) : String := "ok " ++ toHex (0x04 :: x ++ y)
+
 def genSource : Source :=
   { reqRoles := Gen.reqRoles, respRoles := Gen.respRoles, adExtRoles := Gen.adExtRoles,
-    reqTables := Gen.reqTables, respCase := genRespCase, adatCase := genAdatCase, opCase := genOpCase, vopCase := genVopCase,
+    reqTables := Gen.reqTables, respCase := genRespCase, adatCase := genAdatCase, u2fParse := ctap1Parse Gen.controlByteTryFrom,
+    u2fsCase := genU2fsCase, regnewCase := genRegnewCase, opCase := genOpCase, vopCase := genVopCase,
     tables := fun n => if n = "status" then some Gen.statusCodes
                        else if n = "Permissions" then some Gen.flagsPermissions
                        else if n = "AuthenticatorDataFlags" then some Gen.flagsAuthenticatorDataFlags else none,
@@ -206,7 +230,8 @@ def genSource : Source :=
 
 def specSource : Source :=
   { reqRoles := Spec.reqRoles, respRoles := Spec.respRoles, adExtRoles := Spec.adExtRoles,
-    reqTables := specReqTables, respCase := specRespCase, adatCase := specAdatCase, opCase := specOpCase, vopCase := specVopCase,
+    reqTables := specReqTables, respCase := specRespCase, adatCase := specAdatCase, u2fParse := fun a b c d => .ret (Spec.u2fParse a b c d),
+    u2fsCase := specU2fsCase, regnewCase := specRegnewCase, opCase := specOpCase, vopCase := specVopCase,
     tables := fun n => if n = "status" then some Spec.statusCodes
                        else if n = "Permissions" then some Spec.permissions
                        else if n = "AuthenticatorDataFlags" then some Spec.authDataFlags else none,
@@ -290,6 +315,38 @@ def handle (src : Source) (line : String) : String :=
         | some acdv, some extv => src.adatCase c flavour rp mask count acdv extv
         | _, _ => "bad-case")
      | _, _, _, _ => "bad-case")
+  | ["apdu", _mode, hx] =>
+    (match fromHex hx with
+     | none => "bad-case"
+     | some bs =>
+       match parseApdu bs with
+       | none => "bad-apdu"
+       | some a =>
+         match src.u2fParse a.cla a.ins a.p1 a.data with
+         | .panic => "panic"
+         | .ub => "panic"
+         | .ret (.error e) => s!"err {e.sw}"
+         | .ret (.ok .version) => "ok version"
+         | .ret (.ok (.register c ap)) => s!"ok register {toHex c} {toHex ap}"
+         | .ret (.ok (.authenticate cb c ap kh)) =>
+           s!"ok authenticate {cb} {toHex c} {toHex ap} {if kh.isEmpty then "-" else toHex kh}")
+  | ["u2fs", cap, prior, resp] =>
+    (match cap.toNat?, fromHex prior with
+     | some cap, some prior =>
+       let hx (s : String) : List Byte := (fromHex s).getD []
+       let r : Option U2fResp := match resp.splitOn ":" with
+         | ["reg", h, pk, kh, cert, sig] => h.toNat?.map fun h => .register (UInt8.ofNat h) (hx pk) (hx kh) (hx cert) (hx sig)
+         | ["auth", up, count, sig] => (up.toNat?.bind fun up => count.toNat?.map fun c => U2fResp.authenticate (UInt8.ofNat up) c (hx sig))
+         | ["ver", v] => some (.version (hx v))
+         | _ => none
+       (match r with
+        | none => "bad-case"
+        | some r => src.u2fsCase cap prior r)
+     | _, _ => "bad-case")
+  | ["regnew", x, y] =>
+    (match fromHex x, fromHex y with
+     | some x, some y => src.regnewCase x y
+     | _, _ => "bad-case")
   | ["tbl", name] =>
     (match src.tables name with
      | some t => ",".intercalate (t.map fun (n, v) => s!"{n}={v}")
